@@ -554,6 +554,23 @@ int sx127x_create(void *spi_device, sx127x *result) {
   result->spi_device.shadow_registers_sync[REGTEMP] = SHADOW_IGNORE;
   result->spi_device.shadow_registers_sync[REGIRQFLAGS1] = SHADOW_IGNORE;
   result->spi_device.shadow_registers_sync[REGIRQFLAGS2] = SHADOW_IGNORE;
+  // registers (or registers sharing an address with ones) that the chip changes on its own
+  result->spi_device.shadow_registers_sync[REGOPMODE] = SHADOW_IGNORE;
+  result->spi_device.shadow_registers_sync[REGFIFOADDRPTR] = SHADOW_IGNORE;
+  result->spi_device.shadow_registers_sync[REGRXHEADERCNTVALUEMSB] = SHADOW_IGNORE;
+  result->spi_device.shadow_registers_sync[REGRXHEADERCNTVALUELSB] = SHADOW_IGNORE;
+  result->spi_device.shadow_registers_sync[REGRXPACKETCNTVALUEMSB] = SHADOW_IGNORE;
+  result->spi_device.shadow_registers_sync[REGRXPACKETCNTVALUELSB] = SHADOW_IGNORE;
+  result->spi_device.shadow_registers_sync[REGMODEMSTAT] = SHADOW_IGNORE;
+  result->spi_device.shadow_registers_sync[REGHOPCHANNEL] = SHADOW_IGNORE;
+  result->spi_device.shadow_registers_sync[REGFEIMSB_FSK] = SHADOW_IGNORE;
+  result->spi_device.shadow_registers_sync[REGFEILSB_FSK] = SHADOW_IGNORE;
+  result->spi_device.shadow_registers_sync[REGOSC] = SHADOW_IGNORE;
+  result->spi_device.shadow_registers_sync[REGFIFORXBYTEADDR] = SHADOW_IGNORE;
+  result->spi_device.shadow_registers_sync[REGFEIMID] = SHADOW_IGNORE;
+  result->spi_device.shadow_registers_sync[REGFEILSB] = SHADOW_IGNORE;
+  result->spi_device.shadow_registers_sync[REGRSSIWIDEBAND] = SHADOW_IGNORE;
+  result->spi_device.shadow_registers_sync[REGFORMERTEMP] = SHADOW_IGNORE;
 #endif
 
   uint8_t version;
